@@ -396,7 +396,7 @@ def gen_project(rng, size):
         imports = {}   # module -> None (unqualified) | list of symbols
         def need(mod, sym):
             if mod not in imports:
-                imports[mod] = None if rng.random() < 0.3 else []
+                imports[mod] = None if rng.random() < 0.4 else []
             if imports[mod] is not None and sym not in imports[mod]:
                 imports[mod].append(sym)
         for _ in range(ncall):
@@ -540,6 +540,52 @@ def gen_config(rng, proj):
         routines[key] = ov
     return {'default': default, 'routines': routines}
 
+def aim_block(rng, case):
+    """block / disable entries (plain, scoped, mixed case) of a reachable caller aimed at one of its callees from another
+    module: callees behind an unqualified USE next to ONLY-imported ones"""
+    proj, config = case['proj'], case['config']
+    routines, default = config['routines'], config['default']
+    nodes = set(truth_graph(proj, config, case['seeds'])[0])
+    pairs = []
+    for m in proj['modules']:
+        for r in m['routines']:
+            pairs += [('%s#%s' % (m['name'], r['name']), c) for c in r['calls'] if c.get('via') in ('unq', 'only') and c['k'] in ('sub', 'fun')]
+    for f in proj['free']:
+        pairs += [('#' + f['routine']['name'], c) for c in f['routine']['calls'] if c.get('via') in ('unq', 'only') and c['k'] in ('sub', 'fun')]
+    pairs = [p for p in pairs if p[0] in nodes and item_conf(config, p[0]).get('expand', False)]
+    unqp = [p for p in pairs if p[1]['via'] == 'unq']
+    if not unqp:
+        # turn one ONLY import of a reachable caller into an unqualified USE when it lists called procedures only
+        byname = {('%s#%s' % (m['name'], r['name'])): r for m in proj['modules'] for r in m['routines']}
+        byname.update({'#' + f['routine']['name']: f['routine'] for f in proj['free']})
+        for caller, c in rng.sample(pairs, len(pairs)):
+            r = byname[caller]
+            u = next((u for u in r['uses'] if u['module'] == c['mod']), None)
+            called = {cc['name'] for cc in r['calls'] if cc.get('mod') == c['mod'] and cc['k'] in ('sub', 'fun')}
+            if u and u['only'] is not None and all(isinstance(x, str) and x in called for x in u['only']):
+                u['only'] = None
+                for cc in r['calls']:
+                    if cc.get('mod') == c['mod'] and cc.get('via') == 'only': cc['via'] = 'unq'
+                unqp = [(caller, cc) for cc in r['calls'] if cc.get('mod') == c['mod'] and cc.get('via') == 'unq']
+                break
+    for _ in range(rng.choice([1, 1, 2])):
+        pool = unqp if (unqp and rng.random() < 0.75) else pairs
+        if not pool: break
+        caller, c = rng.choice(pool)
+        callee = c.get('orig', c['name'])
+        key = rng.choice([callee, callee, '%s#%s' % (c['mod'], callee)])
+        key = rng.choice([key, key.upper(), key.capitalize()])
+        local = caller.split('#', 1)[1]
+        ex = next((k for k in routines if k.lower().split('#')[-1] == local), None)
+        if ex is None:
+            ex = rng.choice([local, local.upper(), caller if not caller.startswith('#') else local])
+            routines[ex] = {}
+        field = 'block' if rng.random() < 0.85 else 'disable'
+        if field not in routines[ex]:
+            routines[ex][field] = list(default.get(field, []) or [])
+        routines[ex][field] = list(routines[ex][field]) + [key]
+    return case
+
 def gen_seeds(rng, proj, config):
     atoms, flags = truth_atoms(proj)
     procs = sorted(n for n in atoms if flags[n]['kind'] == 'proc')
@@ -555,10 +601,24 @@ def gen_seeds(rng, proj, config):
     if rng.random() < 0.08: seeds.append('no_such_routine')
     return seeds
 
+def plain_match(name, keys):
+    nm = name.lower(); local = nm.split('#', 1)[-1]
+    return any(k.lower() in (nm, local) for k in keys)
+
+def unq_in_class(mod, p, gd, idis, iblk):
+    tgt = '%s#%s' % (mod, p)
+    if doc_match(tgt, gd):
+        return doc_match('#' + p, gd + idis + iblk)
+    return doc_match(tgt, idis + iblk) == plain_match(tgt, idis + iblk)
+
 def normalise_case(case):
     """keep the case inside the class where the unchanged code satisfies the property (see notes/C21.md):
-    * a procedure reached through an unqualified USE must not match a disable/block key of the caller,
-      must not be listed in a generic interface, and (functions) needs the FP full parse;
+    * for a procedure m#p reached through an unqualified USE the code is right iff (unq_in_class): either a key of
+      default.disable selects m#p AND the pruning lists also select "#p" (local-name and pattern keys do, scoped and
+      module keys do not: F-C21-4), or no default.disable key selects it and "some key of item.disable/item.block selects
+      m#p by pattern/scope" coincides with "some key is its qualified or local name" (plain, scoped, any case: the
+      re-filter of create_dependency_items and the block test of _add_children; patterns and module names: F-C21-5);
+      it must not be listed in a generic interface, and (functions) needs the FP full parse;
     * symbols imported from modules outside the search path are not disabled;
     * seeds are not disabled."""
     proj, config = case['proj'], case['config']
@@ -569,11 +629,10 @@ def normalise_case(case):
         conf = item_conf(config, name)
         if not fp_full:
             r['calls'] = [c for c in r['calls'] if not (c['k'] == 'fun' and c.get('via') == 'host')]
-        keys = gd + list(conf.get('disable', []) or []) + list(conf.get('block', []) or [])
+        idis, iblk = list(conf.get('disable', []) or []), list(conf.get('block', []) or [])
         for c in r['calls']:
             if c.get('via') == 'unq':
-                tgt = '%s#%s' % (c['mod'], c['name'])
-                if doc_match(tgt, keys) or doc_match('#' + c['name'], keys) or (c['mod'], c['name']) in infc or (c['k'] == 'fun' and not fp_full):
+                if not unq_in_class(c['mod'], c['name'], gd, idis, iblk) or (c['mod'], c['name']) in infc or (c['k'] == 'fun' and not fp_full):
                     mvars = next((m.get('vars', []) for m in proj['modules'] if m['name'] == c['mod']), [])
                     for u in r['uses']:
                         if u['module'] == c['mod'] and u['only'] is None:
@@ -780,6 +839,8 @@ class C21(Property):
             case = {'kind': 'graph', 'proj': proj, 'config': gen_config(rng, proj), 'seeds': None,
                     'frontend': rng.choice(['fp', 'regex']), 'full_parse': rng.random() < 0.75}
             case['seeds'] = gen_seeds(rng, proj, case['config'])
+            if rng.random() < 0.75:
+                aim_block(rng, case)
             yield normalise_case(case)
         nm = 300 if tier == 'quick' else 2500
         atoms = ['kern1', 'util_2', 'ma_mod', 'ty3', 'apply', 'abort', 'comp_11', 'x']
